@@ -21,7 +21,7 @@ TEXT = {
  "C08": ("Lean theorem gen_bisim_step (all L,W >= 1 incl. one-column boards, all boards with arrows 0..3, all probabilities, all three variants): the numbering enc is a functional bisimulation from the rule specification (CR/Spec/Roborta.lean) onto the generated game: same labels, probabilities, ORDER, owners, rewards, final state; enc injective on valid situations; valid situations closed under the rules; enc(light 0 0) = 0. Correspondence: the written file read back vs the model's three games; oracle: independent Python rendering of the rules + partition-refinement bisimulation.", "5 C08"),
  "C09": ("Lean theorems over dynamically typed descriptions: validate g = ok <-> DocWellFormed g (every documented rule at every state/transition/tuple slot, indices n and -1 included); every validation error is a ValueError; solve returns no result unless validation succeeded, in both modes; the batch runner records the message and marks the unpruned entry not solved. Correspondence: every rule x position mutant through solve() and run_games vs the model.", "5 C09"),
  "C10": ("Lean: aliasing (heap) model of the conditioning phase in which every node initially aliases the caller's inner list; theorems: no operation of the current code touches the caller's lists, the heap model refines the pure model, any sequence of solves returns the same outcomes. The heap model's claim about WHICH operations are in-place is tied to the code by the correspondence (post-state of the caller's description, watched over sequences of 2-4 solves on one shared description).", "5 C10"),
- "C11": ("Lean theorems for every board/variant/probabilities in (0,1): every state has a transition, targets in range, probabilistic rows positive and summing to 1, the only final is the absorbing winning state, the losing state is absorbing, each game passes the solver's validation. The file-text round trip (str(dict) surgery + eval) and 'solved or no solution' are covered by correspondence/oracle; ~2% of generated A/B games never return (diverging diagnostic): listed known finding. partial.", "5 C11"),
+ "C11": ("Lean theorems for every board/variant/probabilities in (0,1): every state has a transition, targets in range, probabilistic rows positive and summing to 1, the only final is the absorbing winning state, the losing state is absorbing, each game passes the solver's validation. Text level (C11Text): the four str.replace calls only insert whitespace outside string literals (surgery_preserves_game) and the formatted text determines the game dict uniquely (surgery_text_determines_game); the model's replace/repr are tied to Python's by byte-for-byte comparison of every generated game section (corr.gentext); Python's parser ignoring that whitespace and float repr/eval are trusted. 'Solved or no solution' is covered by correspondence/oracle; ~2% of generated A/B games never return (diverging diagnostic): listed known finding. partial.", "5 C11"),
  "C12": ("Lean theorems: with distinct result keys every entry of the batch equals what running that game alone gives (isolation, order- and subset-independence), keys in run order, failure => message entry + 'not solved' + remaining games unaffected, counts. The key-collision hypothesis is necessary (proved example) and is a listed known finding. Correspondence: run_games vs model and vs solo solves.", "5 C12"),
  "C13": ("Lean theorems (refinement to presentation-independent specifications): reachability relation, Bellman operator, least pre-fixed point (the value), zero set/solvability and optimal-action sets commute with state renumbering fixing 0, per-state transition reordering and injective action renaming; exactly converged runs are related exactly; residual-stopped runs are both lower bounds of the same value. Equality of two floating-point / residual-stopped runs is not provable (and false beyond the tolerance: listed findings). Oracle: metamorphic comparison of real runs. partial.", "5 C13"),
  "C14": ("Lean theorems: the successor the sweep follows for the two diagnostics is the reported final action when the final strategy is a single action (monotone rounding); closed forms of both diagnostic updates per node kind; threshold-consistency of the reported diagnostics with their own equations (probabilistic states always; player states when the last sweep left the rewards unchanged). Equality with the exact chain values within tolerance is false on slow cycles (listed finding). Oracle: exact induced chain from the reported strategies. partial.", "5 C14"),
